@@ -33,21 +33,34 @@ def VIDX(tree: A[int, 2], key: A[int, 1], L: int) -> int:
 
 
 @spec_inline
-def KEYOK(key: A[int, 1], L: int, B: int) -> bool:
-    return forall(0, L, lambda i: 0 <= key[i] and key[i] < B)
+def AGREE(k1: A[int, 1], k2: A[int, 1], n: int) -> bool:
+    """the keys agree on their first n entries"""
+    return forall(0, n, lambda t: k1[t] == k2[t])
 
 
 @spec_inline
-def AMKEYS(m: ArrayMap, B: int) -> bool:
-    """for every key: the path stays among the allocated nodes, the value index among the allocated values,
-    and a stored value is a finite number"""
-    return forall_arr1(lambda key: implies(KEYOK(key, m[2], B), forall(0, m[2] + 1, lambda i: -1 <= NODE(m[0], key, i) and NODE(m[0], key, i) < m[3]) and -1 <= VIDX(m[0], key, m[2]) and VIDX(m[0], key, m[2]) < m[4] and implies(VIDX(m[0], key, m[2]) >= 0, finite(m[1][VIDX(m[0], key, m[2])]))))
+def AMKEYS(m: ArrayMap) -> bool:
+    """for every key: the path stays among the allocated nodes and climbs, the value index is among the
+    allocated values, and a stored value is a finite number"""
+    return forall_arr1(lambda key: forall(0, m[2] + 1, lambda i: -1 <= NODE(m[0], key, i) and NODE(m[0], key, i) < m[3]) and forall(0, m[2], lambda i: implies(NODE(m[0], key, i + 1) >= 0, NODE(m[0], key, i) < NODE(m[0], key, i + 1))) and -1 <= VIDX(m[0], key, m[2]) and VIDX(m[0], key, m[2]) < m[4] and implies(VIDX(m[0], key, m[2]) >= 0, finite(m[1][VIDX(m[0], key, m[2])])))
+
+
+@spec_inline
+def AMINJ(m: ArrayMap) -> bool:
+    """the trie is a tree: a node is reached by exactly one key prefix, a value slot by exactly one key"""
+    return forall_arr1(lambda k1, k2: forall(0, m[2] + 1, lambda i1: forall(0, m[2] + 1, lambda i2: implies(NODE(m[0], k1, i1) >= 0 and NODE(m[0], k1, i1) == NODE(m[0], k2, i2), i1 == i2 and AGREE(k1, k2, i1)))) and implies(VIDX(m[0], k1, m[2]) >= 0 and VIDX(m[0], k1, m[2]) == VIDX(m[0], k2, m[2]), AGREE(k1, k2, m[2])))
+
+
+@spec_inline
+def AMFREE(m: ArrayMap) -> bool:
+    """rows and value slots that have not been handed out are empty"""
+    return forall(lambda r, j: implies(r >= m[3], m[0][r, j] == -1)) and forall(lambda q: implies(q >= m[4], isnan(m[1][q]) and not isninf(m[1][q])))
 
 
 @spec
 def AMOK(m: ArrayMap, T: int, B: int, V: int) -> bool:
     """representation invariant (T, B, V: numbers of tree rows, branches per node, value slots)"""
-    return m[2] >= 0 and B >= 1 and 1 <= m[3] and m[3] < T and 0 <= m[4] and m[4] < V and isnan(m[1][m[4]]) and not isninf(m[1][m[4]]) and AMKEYS(m, B)
+    return m[2] >= 1 and B >= 1 and 1 <= m[3] and m[3] < T and 0 <= m[4] and m[4] < V and AMKEYS(m) and AMINJ(m) and AMFREE(m)
 
 
 @spec
@@ -73,7 +86,7 @@ def get(array_map: Opt[ArrayMap], array: A[i1, 1]) -> float:
     with entry():
         if array_map is not None:
             unfold(AMOK(array_map, len(array_map[0]), array_map[0].shape[1], len(array_map[1])))
-            instantiate(AMKEYS(array_map, array_map[0].shape[1]), array)
+            instantiate(AMKEYS(array_map), array)
             unfold(AMMISS(array_map, val(array)), AMGET(array_map, val(array)))
             unfold(NODE(array_map[0], array, 0))
     with loop(0):
@@ -83,17 +96,6 @@ def get(array_map: Opt[ArrayMap], array: A[i1, 1]) -> float:
     with before_stmt("return values[empty_values]"):
         # a missing pointer on the way: the rest of the path is missing too
         lemma_node_missing(tree, array, i + 1, array_length)
-
-
-@contract("mchap.assemble.arraymap.set", trusted=True, props=["C09"], opt_result={"": "array_map"})
-def set(array_map: Opt[ArrayMap], array: A[i1, 1], value: float, empty_if_full: bool) -> Opt[ArrayMap]:
-    requires(implies(array_map is not None, AMOK(array_map, len(array_map[0]), array_map[0].shape[1], len(array_map[1])) and len(array) == array_map[2] and empty_if_full))
-    requires(implies(array_map is not None, forall(0, len(array), lambda i: 0 <= array[i] and array[i] < array_map[0].shape[1])))
-    requires(finite(value))
-    modifies(array_map)
-    ensures(implies(array_map is not None, AMOK(result, len(result[0]), result[0].shape[1], len(result[1])) and result[2] == array_map[2] and result[0].shape[1] == array_map[0].shape[1]))
-    # frame: afterwards every key is a miss, or serves what it served before, or is `array` serving `value`
-    ensures(implies(array_map is not None, forall_arr1(lambda k: AMMISS(result, k) or (not AMMISS(old(array_map), k) and AMGET(result, k) == AMGET(old(array_map), k)) or (k == val(array) and AMGET(result, k) == value), pattern=AMMISS(result, k))))
 
 
 @spec_inline
@@ -200,6 +202,20 @@ def lemma_node_empty(tree: A[int, 2], key: A[int, 1], i: int):
         unfold(NODE(tree, key, 0))
 
 
+@lemma(shared=True)
+def lemma_empty_map_ok(m: ArrayMap):
+    """a map whose tree is all -1 and whose values are all NaN, with one node (the root) and no value handed out,
+    satisfies the key-quantified parts of the invariant"""
+    requires(m[2] >= 1, m[3] == 1, m[4] == 0, forall(lambda r, j: m[0][r, j] == -1), forall(lambda q: isnan(m[1][q]) and not isninf(m[1][q])))
+    ensures(AMKEYS(m), AMINJ(m), AMFREE(m))
+    with forall_intro_arr1(key, forall(0, m[2] + 1, lambda i: NODE(m[0], key, i) == ite(i == 0, 0, -1))):
+        with forall_intro(i, 0, m[2] + 1, NODE(m[0], key, i) == ite(i == 0, 0, -1)):
+            if i >= 1:
+                lemma_node_empty(m[0], key, i)
+            else:
+                unfold(NODE(m[0], key, 0))
+
+
 @contract("mchap.assemble.arraymap.new", machine_ints=True, props=["C09"])
 def new(array_length: int, node_branches: int, initial_size: int, max_size: int) -> ArrayMap:
     requires(array_length >= 1, node_branches >= 1, initial_size >= 2)
@@ -208,14 +224,7 @@ def new(array_length: int, node_branches: int, initial_size: int, max_size: int)
     with exit_():
         M = (tree, values, array_length, 1, 0, max_size)
         unfold(AMOK(M, initial_size, node_branches, initial_size))
-        with forall_intro_arr1(key, implies(KEYOK(key, array_length, node_branches), forall(0, array_length + 1, lambda i: -1 <= NODE(tree, key, i) and NODE(tree, key, i) < 1) and -1 <= VIDX(tree, key, array_length) and VIDX(tree, key, array_length) < 0 and implies(VIDX(tree, key, array_length) >= 0, finite(values[VIDX(tree, key, array_length)])))):
-            if KEYOK(key, array_length, node_branches):
-                with forall_intro(i, 0, array_length + 1, -1 <= NODE(tree, key, i) and NODE(tree, key, i) < 1):
-                    if i >= 1:
-                        lemma_node_empty(tree, key, i)
-                    else:
-                        unfold(NODE(tree, key, 0))
-                lemma_node_empty(tree, key, array_length)
+        lemma_empty_map_ok(M)
         with forall_intro_arr1(k2, AMMISS(M, k2), pattern=AMMISS(M, k2)):
             unfold(AMMISS(M, k2))
             lemma_node_empty(tree, k2, array_length)
@@ -226,3 +235,362 @@ def new_log_likelihood_cache(ploidy: int, n_base: int, max_alleles: int, max_siz
     requires(ploidy >= 1, n_base >= 1, ploidy * n_base <= 2 ** 48, max_alleles >= 1)
     ensures(AMOK(result, len(result[0]), result[0].shape[1], len(result[1])), result[2] == ploidy * n_base, result[0].shape[1] == max_alleles)
     ensures(forall_arr1(lambda k: AMMISS(result, k), pattern=AMMISS(result, k)))
+
+
+# ------------------------------------------------------------------------------------------------
+# arraymap.set : inserting the path of `array` into the trie
+#
+# t0 / E0: tree and number of nodes before; t1 / E1: after the descent.  c is the depth of the first missing
+# pointer on array's path in t0 (c == L when the whole path existed, then E1 == E0 and t1 == t0).
+
+
+@spec_inline
+def INSREL(t0: A[int, 2], t1: A[int, 2], array: A[int, 1], c: int, E0: int, E1: int, L: int) -> bool:
+    """t1 is t0 plus the chain of new nodes E0 .. E1-1 hanging off entry (NODE(t0,array,c), array[c])"""
+    return 0 <= c and c <= L and E1 - E0 == L - c and forall(0, c + 1, lambda s: NODE(t0, array, s) >= 0) and implies(c < L, t0[NODE(t0, array, c), array[c]] == -1) and forall(lambda r, j: implies(0 <= r and r < E0, t1[r, j] == ite(c < L and r == NODE(t0, array, c) and j == array[c], E0, t0[r, j]))) and forall(lambda r, j: implies(E0 <= r and r < E1, t1[r, j] == ite(r + 1 < E1 and j == array[c + 1 + (r - E0)], r + 1, -1))) and forall(lambda r, j: implies(r >= E1, t1[r, j] == -1))
+
+
+@spec_inline
+def KEYS0A(t0: A[int, 2], E0: int, L: int) -> bool:
+    """node part of AMKEYS for the old tree"""
+    return forall_arr1(lambda key: forall(0, L + 1, lambda i: -1 <= NODE(t0, key, i) and NODE(t0, key, i) < E0) and forall(0, L, lambda i: implies(NODE(t0, key, i + 1) >= 0, NODE(t0, key, i) < NODE(t0, key, i + 1))))
+
+
+@spec_inline
+def KEYS0I(t0: A[int, 2], L: int) -> bool:
+    """node part of AMINJ for the old tree"""
+    return forall_arr1(lambda k1, k2: forall(0, L + 1, lambda i1: forall(0, L + 1, lambda i2: implies(NODE(t0, k1, i1) >= 0 and NODE(t0, k1, i1) == NODE(t0, k2, i2), i1 == i2 and AGREE(k1, k2, i1)))))
+
+
+@lemma(shared=True)
+def lemma_node_nonneg_prefix(tree: A[int, 2], key: A[int, 1], i: int, s: int):
+    """an existing node has an existing path"""
+    requires(0 <= s, s <= i, NODE(tree, key, i) >= 0)
+    ensures(NODE(tree, key, s) >= 0)
+    decreases(i - s)
+    if s < i:
+        unfold(NODE(tree, key, i))
+        lemma_node_nonneg_prefix(tree, key, i - 1, s)
+
+
+@lemma(shared=True)
+def lemma_path_increasing(tree: A[int, 2], key: A[int, 1], E: int, L: int, s: int, t: int):
+    """along an existing path node indices strictly increase"""
+    requires(0 <= s, s < t, t <= L, NODE(tree, key, t) >= 0)
+    requires(forall(0, L, lambda i: implies(NODE(tree, key, i + 1) >= 0, NODE(tree, key, i) < NODE(tree, key, i + 1))))
+    ensures(NODE(tree, key, s) < NODE(tree, key, t))
+    decreases(t - s)
+    lemma_node_nonneg_prefix(tree, key, t, t - 1)
+    if s < t - 1:
+        lemma_path_increasing(tree, key, E, L, s, t - 1)
+
+
+@lemma(shared=True)
+def lemma_ins_array_path(t0: A[int, 2], t1: A[int, 2], array: A[int, 1], c: int, E0: int, E1: int, L: int, s: int):
+    """the path of `array` in the new tree: the old nodes down to depth c, then the new chain"""
+    requires(INSREL(t0, t1, array, c, E0, E1, L), KEYS0A(t0, E0, L), 0 <= s, s <= L, E0 >= 1)
+    ensures(NODE(t1, array, s) == ite(s <= c, NODE(t0, array, s), E0 + (s - c - 1)))
+    decreases(s)
+    unfold(NODE(t1, array, s), NODE(t0, array, s))
+    instantiate(KEYS0A(t0, E0, L), array)
+    if s >= 1:
+        lemma_ins_array_path(t0, t1, array, c, E0, E1, L, s - 1)
+        if s - 1 < c:
+            lemma_path_increasing(t0, array, E0, L, s - 1, c)
+
+
+@lemma(shared=True)
+def lemma_node_ext(tree: A[int, 2], k1: A[int, 1], k2: A[int, 1], i: int):
+    """the node reached depends on the consumed prefix only"""
+    requires(AGREE(k1, k2, i))
+    ensures(NODE(tree, k1, i) == NODE(tree, k2, i))
+    decreases(i)
+    unfold(NODE(tree, k1, i), NODE(tree, k2, i))
+    if i >= 1:
+        lemma_node_ext(tree, k1, k2, i - 1)
+
+
+@lemma(shared=True)
+def lemma_ins_other_path(t0: A[int, 2], t1: A[int, 2], array: A[int, 1], key: A[int, 1], c: int, E0: int, E1: int, L: int, t: int):
+    """a key that shares the first t entries with `array` follows array's (partly new) path; a key that has left
+    it walks exactly as in the old tree"""
+    requires(INSREL(t0, t1, array, c, E0, E1, L), KEYS0A(t0, E0, L), KEYS0I(t0, L), 0 <= t, t <= L, E0 >= 1)
+    ensures(implies(AGREE(key, array, t), NODE(t1, key, t) == NODE(t1, array, t)))
+    ensures(implies(not AGREE(key, array, t), NODE(t1, key, t) == NODE(t0, key, t)))
+    decreases(t)
+    unfold(NODE(t1, key, t), NODE(t0, key, t), NODE(t1, array, t))
+    if t >= 1:
+        lemma_ins_other_path(t0, t1, array, key, c, E0, E1, L, t - 1)
+        lemma_ins_array_path(t0, t1, array, c, E0, E1, L, t - 1)
+        instantiate(KEYS0A(t0, E0, L), key)
+        instantiate(KEYS0A(t0, E0, L), array)
+        instantiate(KEYS0I(t0, L), key, array)
+        if AGREE(key, array, t - 1):
+            lemma_node_ext(t0, key, array, t - 1)
+            if key[t - 1] != array[t - 1]:
+                if t - 1 <= c:
+                    if t - 1 < c:
+                        lemma_path_increasing(t0, array, E0, L, t - 1, c)
+                else:
+                    lemma_node_ext(t0, key, array, c)
+                    unfold(NODE(t0, key, c + 1))
+                    lemma_node_missing(t0, key, c + 1, t)
+
+
+@lemma(shared=True)
+def lemma_ins_keys_a(t0: A[int, 2], t1: A[int, 2], array: A[int, 1], c: int, E0: int, E1: int, L: int):
+    """after the insertion every path stays among the E1 allocated nodes and climbs"""
+    requires(INSREL(t0, t1, array, c, E0, E1, L), KEYS0A(t0, E0, L), KEYS0I(t0, L), E0 >= 1, L >= 1)
+    ensures(KEYS0A(t1, E1, L))
+    with forall_intro_arr1(key, forall(0, L + 1, lambda i: -1 <= NODE(t1, key, i) and NODE(t1, key, i) < E1) and forall(0, L, lambda i: implies(NODE(t1, key, i + 1) >= 0, NODE(t1, key, i) < NODE(t1, key, i + 1)))):
+        instantiate(KEYS0A(t0, E0, L), key)
+        instantiate(KEYS0A(t0, E0, L), array)
+        with forall_intro(i, 0, L + 1, -1 <= NODE(t1, key, i) and NODE(t1, key, i) < E1):
+            lemma_ins_other_path(t0, t1, array, key, c, E0, E1, L, i)
+            lemma_ins_array_path(t0, t1, array, c, E0, E1, L, i)
+        with forall_intro(i, 0, L, implies(NODE(t1, key, i + 1) >= 0, NODE(t1, key, i) < NODE(t1, key, i + 1))):
+            lemma_ins_other_path(t0, t1, array, key, c, E0, E1, L, i)
+            lemma_ins_other_path(t0, t1, array, key, c, E0, E1, L, i + 1)
+            lemma_ins_array_path(t0, t1, array, c, E0, E1, L, i)
+            lemma_ins_array_path(t0, t1, array, c, E0, E1, L, i + 1)
+            if AGREE(key, array, i):
+                lemma_node_ext(t0, key, array, i)
+                if not AGREE(key, array, i + 1):
+                    if i > c:
+                        lemma_node_ext(t0, key, array, c)
+                        unfold(NODE(t0, key, c + 1))
+                        lemma_node_missing(t0, key, c + 1, i + 1)
+
+
+@lemma(shared=True)
+def lemma_ins_keys_i(t0: A[int, 2], t1: A[int, 2], array: A[int, 1], c: int, E0: int, E1: int, L: int):
+    """after the insertion the trie is still a tree"""
+    requires(INSREL(t0, t1, array, c, E0, E1, L), KEYS0A(t0, E0, L), KEYS0I(t0, L), E0 >= 1, L >= 1)
+    ensures(KEYS0I(t1, L))
+    lemma_ins_keys_a(t0, t1, array, c, E0, E1, L)
+    instantiate(KEYS0A(t1, E1, L), array)
+    instantiate(KEYS0A(t0, E0, L), array)
+    with forall_intro_arr1(k1, forall_arr1(lambda k2: forall(0, L + 1, lambda i1: forall(0, L + 1, lambda i2: implies(NODE(t1, k1, i1) >= 0 and NODE(t1, k1, i1) == NODE(t1, k2, i2), i1 == i2 and AGREE(k1, k2, i1)))))):
+        with forall_intro_arr1(k2, forall(0, L + 1, lambda i1: forall(0, L + 1, lambda i2: implies(NODE(t1, k1, i1) >= 0 and NODE(t1, k1, i1) == NODE(t1, k2, i2), i1 == i2 and AGREE(k1, k2, i1))))):
+            with forall_intro(i1, 0, L + 1, forall(0, L + 1, lambda i2: implies(NODE(t1, k1, i1) >= 0 and NODE(t1, k1, i1) == NODE(t1, k2, i2), i1 == i2 and AGREE(k1, k2, i1)))):
+                with forall_intro(i2, 0, L + 1, implies(NODE(t1, k1, i1) >= 0 and NODE(t1, k1, i1) == NODE(t1, k2, i2), i1 == i2 and AGREE(k1, k2, i1))):
+                    lemma_ins_other_path(t0, t1, array, k1, c, E0, E1, L, i1)
+                    lemma_ins_other_path(t0, t1, array, k2, c, E0, E1, L, i2)
+                    lemma_ins_array_path(t0, t1, array, c, E0, E1, L, i1)
+                    lemma_ins_array_path(t0, t1, array, c, E0, E1, L, i2)
+                    instantiate(KEYS0I(t0, L), k1, k2)
+                    instantiate(KEYS0I(t0, L), array, k2)
+                    instantiate(KEYS0I(t0, L), k1, array)
+                    instantiate(KEYS0A(t0, E0, L), k1)
+                    instantiate(KEYS0A(t0, E0, L), k2)
+                    if NODE(t1, k1, i1) >= 0 and NODE(t1, k1, i1) == NODE(t1, k2, i2):
+                        if AGREE(k1, array, i1) and AGREE(k2, array, i2):
+                            if i1 < i2:
+                                lemma_path_increasing(t1, array, E1, L, i1, i2)
+                            if i2 < i1:
+                                lemma_path_increasing(t1, array, E1, L, i2, i1)
+
+
+@lemma(shared=True)
+def lemma_leaf_store_paths(t1: A[int, 2], t2: A[int, 2], array: A[int, 1], key: A[int, 1], E1: int, L: int, t: int):
+    """writing slot 0 of the leaf of `array` does not disturb any path (a leaf is never an inner node)"""
+    requires(KEYS0A(t1, E1, L), KEYS0I(t1, L), 0 <= t, t <= L, NODE(t1, array, L) >= 0)
+    requires(forall(lambda r, j: implies(r != NODE(t1, array, L) or j != 0, t2[r, j] == t1[r, j])))
+    ensures(NODE(t2, key, t) == NODE(t1, key, t))
+    decreases(t)
+    unfold(NODE(t2, key, t), NODE(t1, key, t))
+    if t >= 1:
+        lemma_leaf_store_paths(t1, t2, array, key, E1, L, t - 1)
+        instantiate(KEYS0I(t1, L), key, array)
+
+
+@lemma(shared=True)
+def lemma_leaf_of(t1: A[int, 2], array: A[int, 1], key: A[int, 1], L: int):
+    """exactly the keys that agree with `array` end in array's leaf"""
+    requires(KEYS0I(t1, L), L >= 0, NODE(t1, array, L) >= 0)
+    ensures((NODE(t1, key, L) == NODE(t1, array, L)) == AGREE(key, array, L))
+    instantiate(KEYS0I(t1, L), key, array)
+    if AGREE(key, array, L):
+        lemma_node_ext(t1, key, array, L)
+
+
+@lemma(shared=True)
+def lemma_ins_vidx(t0: A[int, 2], t1: A[int, 2], array: A[int, 1], key: A[int, 1], c: int, E0: int, E1: int, L: int):
+    """value slots after the descent: untouched for the other keys; array's own leaf is new (no value yet)
+    exactly when a pointer was missing"""
+    requires(INSREL(t0, t1, array, c, E0, E1, L), KEYS0A(t0, E0, L), KEYS0I(t0, L), E0 >= 1, L >= 1)
+    ensures(implies(not AGREE(key, array, L), VIDX(t1, key, L) == VIDX(t0, key, L)))
+    ensures(implies(AGREE(key, array, L), VIDX(t1, key, L) == ite(c < L, -1, VIDX(t0, array, L))))
+    ensures(NODE(t1, array, L) >= 0)
+    lemma_ins_other_path(t0, t1, array, key, c, E0, E1, L, L)
+    lemma_ins_array_path(t0, t1, array, c, E0, E1, L, L)
+    instantiate(KEYS0I(t0, L), key, array)
+    instantiate(KEYS0A(t0, E0, L), key)
+    instantiate(KEYS0A(t0, E0, L), array)
+
+
+@lemma(shared=True)
+def lemma_keys_of_map(m: ArrayMap):
+    """the node parts of the invariant, in the vocabulary of the insertion lemmas"""
+    requires(AMKEYS(m), AMINJ(m))
+    ensures(KEYS0A(m[0], m[3], m[2]), KEYS0I(m[0], m[2]))
+    with forall_intro_arr1(key, forall(0, m[2] + 1, lambda i: -1 <= NODE(m[0], key, i) and NODE(m[0], key, i) < m[3]) and forall(0, m[2], lambda i: implies(NODE(m[0], key, i + 1) >= 0, NODE(m[0], key, i) < NODE(m[0], key, i + 1)))):
+        instantiate(AMKEYS(m), key)
+    with forall_intro_arr1(k1, forall_arr1(lambda k2: forall(0, m[2] + 1, lambda i1: forall(0, m[2] + 1, lambda i2: implies(NODE(m[0], k1, i1) >= 0 and NODE(m[0], k1, i1) == NODE(m[0], k2, i2), i1 == i2 and AGREE(k1, k2, i1)))))):
+        with forall_intro_arr1(k2, forall(0, m[2] + 1, lambda i1: forall(0, m[2] + 1, lambda i2: implies(NODE(m[0], k1, i1) >= 0 and NODE(m[0], k1, i1) == NODE(m[0], k2, i2), i1 == i2 and AGREE(k1, k2, i1))))):
+            instantiate(AMINJ(m), k1, k2)
+
+
+@spec_inline
+def SETREL(t0: A[int, 2], v0: A[xfloat, 1], t1: A[int, 2], t2: A[int, 2], v2: A[xfloat, 1], array: A[int, 1], value: float, c: int, E0: int, E1: int, EV0: int, EV2: int, vidx: int, L: int) -> bool:
+    """the descent (t0 -> t1), the leaf store (t1 -> t2) and the value store (v0 -> v2) of one `set`"""
+    return L >= 1 and E0 >= 1 and EV0 >= 0 and finite(value) and INSREL(t0, t1, array, c, E0, E1, L) and forall(lambda r, j: t2[r, j] == ite(r == NODE(t1, array, L) and j == 0, vidx, t1[r, j])) and vidx == ite(VIDX(t1, array, L) >= 0, VIDX(t1, array, L), EV0) and EV2 == ite(VIDX(t1, array, L) >= 0, EV0, EV0 + 1) and forall(lambda q: implies(q >= 0 and q != vidx, isnan(v2[q]) == isnan(v0[q]) and isninf(v2[q]) == isninf(v0[q]) and (isnan(v0[q]) or real(v2[q]) == real(v0[q])))) and v2[vidx] == value
+
+
+@spec_inline
+def PERKEY(t0: A[int, 2], t1: A[int, 2], t2: A[int, 2], array: A[int, 1], E1: int, EV0: int, vidx: int, L: int) -> bool:
+    """what the insertion means for each key"""
+    return forall_arr1(lambda key: forall(0, L + 1, lambda t: NODE(t2, key, t) == NODE(t1, key, t) and -1 <= NODE(t1, key, t) and NODE(t1, key, t) < E1) and VIDX(t2, key, L) == ite(AGREE(key, array, L), vidx, VIDX(t1, key, L)) and implies(not AGREE(key, array, L), VIDX(t1, key, L) == VIDX(t0, key, L) and VIDX(t0, key, L) != vidx) and -1 <= VIDX(t0, key, L) and VIDX(t0, key, L) < EV0)
+
+
+@lemma(shared=True)
+def lemma_set_perkey(t0: A[int, 2], v0: A[xfloat, 1], t1: A[int, 2], t2: A[int, 2], v2: A[xfloat, 1], array: A[int, 1], value: float, c: int, E0: int, E1: int, EV0: int, EV2: int, vidx: int, L: int, MS: int):
+    requires(SETREL(t0, v0, t1, t2, v2, array, value, c, E0, E1, EV0, EV2, vidx, L))
+    requires(AMKEYS((t0, v0, L, E0, EV0, MS)), AMINJ((t0, v0, L, E0, EV0, MS)), KEYS0A(t0, E0, L), KEYS0I(t0, L))
+    ensures(KEYS0A(t1, E1, L), KEYS0I(t1, L), PERKEY(t0, t1, t2, array, E1, EV0, vidx, L))
+    ensures(0 <= NODE(t1, array, L), NODE(t1, array, L) < E1, 0 <= vidx, vidx < EV2, EV0 <= EV2, E0 <= E1)
+    lemma_ins_keys_a(t0, t1, array, c, E0, E1, L)
+    lemma_ins_keys_i(t0, t1, array, c, E0, E1, L)
+    lemma_ins_array_path(t0, t1, array, c, E0, E1, L, L)
+    instantiate(AMKEYS((t0, v0, L, E0, EV0, MS)), array)
+    instantiate(KEYS0A(t1, E1, L), array)
+    lemma_ins_vidx(t0, t1, array, array, c, E0, E1, L)
+    with forall_intro_arr1(key, forall(0, L + 1, lambda t: NODE(t2, key, t) == NODE(t1, key, t) and -1 <= NODE(t1, key, t) and NODE(t1, key, t) < E1) and VIDX(t2, key, L) == ite(AGREE(key, array, L), vidx, VIDX(t1, key, L)) and implies(not AGREE(key, array, L), VIDX(t1, key, L) == VIDX(t0, key, L) and VIDX(t0, key, L) != vidx) and -1 <= VIDX(t0, key, L) and VIDX(t0, key, L) < EV0):
+        instantiate(KEYS0A(t1, E1, L), key)
+        with forall_intro(t, 0, L + 1, NODE(t2, key, t) == NODE(t1, key, t) and -1 <= NODE(t1, key, t) and NODE(t1, key, t) < E1):
+            lemma_leaf_store_paths(t1, t2, array, key, E1, L, t)
+        lemma_leaf_of(t1, array, key, L)
+        lemma_ins_vidx(t0, t1, array, key, c, E0, E1, L)
+        instantiate(AMKEYS((t0, v0, L, E0, EV0, MS)), key)
+        instantiate(AMINJ((t0, v0, L, E0, EV0, MS)), key, array)
+
+
+@spec_inline
+def VALREL(v0: A[xfloat, 1], v2: A[xfloat, 1], vidx: int, value: float) -> bool:
+    return finite(value) and forall(lambda q: implies(q >= 0 and q != vidx, isnan(v2[q]) == isnan(v0[q]) and isninf(v2[q]) == isninf(v0[q]) and (isnan(v0[q]) or real(v2[q]) == real(v0[q])))) and v2[vidx] == value
+
+
+@lemma(shared=True)
+def lemma_set_keys2(t0: A[int, 2], v0: A[xfloat, 1], t1: A[int, 2], t2: A[int, 2], v2: A[xfloat, 1], array: A[int, 1], value: float, E0: int, E1: int, EV0: int, EV2: int, vidx: int, L: int, MS: int):
+    requires(PERKEY(t0, t1, t2, array, E1, EV0, vidx, L), KEYS0A(t1, E1, L), AMKEYS((t0, v0, L, E0, EV0, MS)), VALREL(v0, v2, vidx, value), 0 <= vidx, vidx < EV2, EV0 <= EV2, L >= 1)
+    ensures(AMKEYS((t2, v2, L, E1, EV2, MS)))
+    with forall_intro_arr1(key, forall(0, L + 1, lambda i: -1 <= NODE(t2, key, i) and NODE(t2, key, i) < E1) and forall(0, L, lambda i: implies(NODE(t2, key, i + 1) >= 0, NODE(t2, key, i) < NODE(t2, key, i + 1))) and -1 <= VIDX(t2, key, L) and VIDX(t2, key, L) < EV2 and implies(VIDX(t2, key, L) >= 0, finite(v2[VIDX(t2, key, L)]))):
+        instantiate(PERKEY(t0, t1, t2, array, E1, EV0, vidx, L), key)
+        instantiate(KEYS0A(t1, E1, L), key)
+        instantiate(AMKEYS((t0, v0, L, E0, EV0, MS)), key)
+
+
+@lemma(shared=True)
+def lemma_set_inj2(t0: A[int, 2], v0: A[xfloat, 1], t1: A[int, 2], t2: A[int, 2], v2: A[xfloat, 1], array: A[int, 1], E0: int, E1: int, EV0: int, EV2: int, vidx: int, L: int, MS: int):
+    requires(PERKEY(t0, t1, t2, array, E1, EV0, vidx, L), KEYS0I(t1, L), AMINJ((t0, v0, L, E0, EV0, MS)), L >= 1, vidx >= 0)
+    ensures(AMINJ((t2, v2, L, E1, EV2, MS)))
+    with forall_intro_arr1(k1, forall_arr1(lambda k2: forall(0, L + 1, lambda i1: forall(0, L + 1, lambda i2: implies(NODE(t2, k1, i1) >= 0 and NODE(t2, k1, i1) == NODE(t2, k2, i2), i1 == i2 and AGREE(k1, k2, i1)))) and implies(VIDX(t2, k1, L) >= 0 and VIDX(t2, k1, L) == VIDX(t2, k2, L), AGREE(k1, k2, L)))):
+        with forall_intro_arr1(k2, forall(0, L + 1, lambda i1: forall(0, L + 1, lambda i2: implies(NODE(t2, k1, i1) >= 0 and NODE(t2, k1, i1) == NODE(t2, k2, i2), i1 == i2 and AGREE(k1, k2, i1)))) and implies(VIDX(t2, k1, L) >= 0 and VIDX(t2, k1, L) == VIDX(t2, k2, L), AGREE(k1, k2, L))):
+            instantiate(PERKEY(t0, t1, t2, array, E1, EV0, vidx, L), k1)
+            instantiate(PERKEY(t0, t1, t2, array, E1, EV0, vidx, L), k2)
+            instantiate(KEYS0I(t1, L), k1, k2)
+            instantiate(AMINJ((t0, v0, L, E0, EV0, MS)), k1, k2)
+
+
+@lemma(shared=True)
+def lemma_set_frame2(t0: A[int, 2], v0: A[xfloat, 1], t1: A[int, 2], t2: A[int, 2], v2: A[xfloat, 1], array: A[int, 1], value: float, E0: int, E1: int, EV0: int, EV2: int, vidx: int, L: int, MS: int):
+    """every key is afterwards a miss, or served what it was served before, or agrees with `array` and is served `value`"""
+    requires(PERKEY(t0, t1, t2, array, E1, EV0, vidx, L), VALREL(v0, v2, vidx, value), AMKEYS((t0, v0, L, E0, EV0, MS)), L >= 1, vidx >= 0, finite(value))
+    ensures(forall_arr1(lambda k: AMMISS((t2, v2, L, E1, EV2, MS), k) or (not AMMISS((t0, v0, L, E0, EV0, MS), k) and AMGET((t2, v2, L, E1, EV2, MS), k) == AMGET((t0, v0, L, E0, EV0, MS), k)) or (AGREE(k, array, L) and AMGET((t2, v2, L, E1, EV2, MS), k) == value), pattern=AMMISS((t2, v2, L, E1, EV2, MS), k)))
+    with forall_intro_arr1(k, AMMISS((t2, v2, L, E1, EV2, MS), k) or (not AMMISS((t0, v0, L, E0, EV0, MS), k) and AMGET((t2, v2, L, E1, EV2, MS), k) == AMGET((t0, v0, L, E0, EV0, MS), k)) or (AGREE(k, array, L) and AMGET((t2, v2, L, E1, EV2, MS), k) == value), pattern=AMMISS((t2, v2, L, E1, EV2, MS), k)):
+        unfold(AMMISS((t2, v2, L, E1, EV2, MS), k), AMMISS((t0, v0, L, E0, EV0, MS), k), AMGET((t2, v2, L, E1, EV2, MS), k), AMGET((t0, v0, L, E0, EV0, MS), k))
+        instantiate(PERKEY(t0, t1, t2, array, E1, EV0, vidx, L), k)
+        instantiate(AMKEYS((t0, v0, L, E0, EV0, MS)), k)
+
+
+@lemma(shared=True)
+def lemma_set_free2(t0: A[int, 2], v0: A[xfloat, 1], t1: A[int, 2], t2: A[int, 2], v2: A[xfloat, 1], array: A[int, 1], value: float, c: int, E0: int, E1: int, EV0: int, EV2: int, vidx: int, L: int, MS: int):
+    requires(SETREL(t0, v0, t1, t2, v2, array, value, c, E0, E1, EV0, EV2, vidx, L), AMFREE((t0, v0, L, E0, EV0, MS)), 0 <= NODE(t1, array, L), NODE(t1, array, L) < E1, vidx < EV2, EV0 <= EV2)
+    ensures(AMFREE((t2, v2, L, E1, EV2, MS)))
+
+
+@contract("mchap.assemble.arraymap.set", machine_ints=True, props=["C09"], opt_result={"": "array_map"})
+def set(array_map: Opt[ArrayMap], array: A[i1, 1], value: float, empty_if_full: bool) -> Opt[ArrayMap]:
+    requires(implies(array_map is not None, AMOK(array_map, len(array_map[0]), array_map[0].shape[1], len(array_map[1])) and len(array) == array_map[2] and empty_if_full))
+    requires(implies(array_map is not None, forall(0, len(array), lambda i: 0 <= array[i] and array[i] < array_map[0].shape[1])))
+    requires(finite(value))
+    modifies(array_map)
+    ensures(implies(array_map is not None, AMOK(result, len(result[0]), result[0].shape[1], len(result[1])) and result[2] == array_map[2] and result[0].shape[1] == array_map[0].shape[1]))
+    # frame: afterwards every key is a miss, or serves what it served before, or agrees with `array` (on its
+    # array_length entries) and serves `value`
+    ensures(implies(array_map is not None, forall_arr1(lambda k: AMMISS(result, k) or (not AMMISS(old(array_map), k) and AMGET(result, k) == AMGET(old(array_map), k)) or (AGREE(k, array, array_map[2]) and AMGET(result, k) == value), pattern=AMMISS(result, k))))
+    with entry():
+        if array_map is not None:
+            unfold(AMOK(array_map, len(array_map[0]), array_map[0].shape[1], len(array_map[1])))
+            lemma_keys_of_map(array_map)
+            T0V = val(array_map[0])
+            V0V = val(array_map[1])
+            L = array_map[2]
+            E0 = array_map[3]
+            EV0 = array_map[4]
+            B = array_map[0].shape[1]
+            instantiate(KEYS0A(T0V, E0, L), array)
+            unfold(NODE(T0V, array, 0))
+    with loop(0):
+        invariant(0 <= i, i <= L, len(array) == L, array_length == L, n_branches == B, tree.shape[1] == B, E0 <= empty_node, empty_node < len(tree), empty_node - E0 <= i)
+        invariant(INSREL(T0V, val(tree), array, i - (empty_node - E0), E0, empty_node, i))
+        invariant(node == ite(empty_node > E0, empty_node - 1, NODE(T0V, array, i)), 0 <= node)
+        invariant(val(values) == V0V, len(values) == len(array_map[1]), empty_values == EV0)
+        with head():
+            unfold(NODE(T0V, array, i + 1))
+            assert_(implies(empty_node > E0, tree[node, array[i]] == -1))
+            assert_(implies(empty_node == E0, tree[node, array[i]] == T0V[node, array[i]] and node < E0))
+        with tail():
+            CN = (i + 1) - (empty_node - E0)
+            assert_(0 <= CN and CN <= i + 1 and empty_node - E0 == (i + 1) - CN)
+            assert_(forall(0, CN + 1, lambda s: NODE(T0V, array, s) >= 0))
+            assert_(implies(CN < i + 1, T0V[NODE(T0V, array, CN), array[CN]] == -1))
+            assert_(forall(lambda r, j: implies(0 <= r and r < E0, tree[r, j] == ite(CN < i + 1 and r == NODE(T0V, array, CN) and j == array[CN], E0, T0V[r, j]))))
+            assert_(forall(lambda r, j: implies(E0 <= r and r < empty_node, tree[r, j] == ite(r + 1 < empty_node and j == array[CN + 1 + (r - E0)], r + 1, -1))))
+            assert_(forall(lambda r, j: implies(r >= empty_node, tree[r, j] == -1)))
+        with after():
+            T1V = val(tree)
+            E1 = empty_node
+            CX = L - (empty_node - E0)
+            lemma_ins_array_path(T0V, T1V, array, CX, E0, E1, L, L)
+            lemma_ins_vidx(T0V, T1V, array, array, CX, E0, E1, L)
+            instantiate(AMKEYS(old(array_map)), array)
+    with before_stmt("return (tree, values, array_length, 1, 0, max_size)", 0):
+        MF = (tree, values, array_length, 1, 0, max_size)
+        unfold(AMOK(MF, len(tree), tree.shape[1], len(values)))
+        lemma_empty_map_ok(MF)
+        with forall_intro_arr1(k2, AMMISS(MF, k2)):
+            unfold(AMMISS(MF, k2))
+            lemma_node_empty(tree, k2, array_length)
+    with before_stmt("return (tree, values, array_length, 1, 0, max_size)", 1):
+        MF = (tree, values, array_length, 1, 0, max_size)
+        unfold(AMOK(MF, len(tree), tree.shape[1], len(values)))
+        lemma_empty_map_ok(MF)
+        with forall_intro_arr1(k2, AMMISS(MF, k2)):
+            unfold(AMMISS(MF, k2))
+            lemma_node_empty(tree, k2, array_length)
+    with before_stmt("return (tree, values, array_length, empty_node, empty_values, max_size)"):
+        T2V = val(tree)
+        V2V = val(values)
+        assert_(node == NODE(T1V, array, L))
+        assert_(INSREL(T0V, T1V, array, CX, E0, E1, L))
+        assert_(forall(lambda r, j: T2V[r, j] == ite(r == NODE(T1V, array, L) and j == 0, value_idx, T1V[r, j])))
+        assert_(value_idx == ite(VIDX(T1V, array, L) >= 0, VIDX(T1V, array, L), EV0) and empty_values == ite(VIDX(T1V, array, L) >= 0, EV0, EV0 + 1))
+        assert_(forall(lambda q: implies(q >= 0 and q != value_idx, isnan(V2V[q]) == isnan(V0V[q]) and isninf(V2V[q]) == isninf(V0V[q]) and (isnan(V0V[q]) or real(V2V[q]) == real(V0V[q])))))
+        assert_(V2V[value_idx] == value)
+        lemma_set_perkey(T0V, V0V, T1V, T2V, V2V, array, value, CX, E0, E1, EV0, empty_values, value_idx, L, max_size)
+        lemma_set_keys2(T0V, V0V, T1V, T2V, V2V, array, value, E0, E1, EV0, empty_values, value_idx, L, max_size)
+        lemma_set_inj2(T0V, V0V, T1V, T2V, V2V, array, E0, E1, EV0, empty_values, value_idx, L, max_size)
+        lemma_set_free2(T0V, V0V, T1V, T2V, V2V, array, value, CX, E0, E1, EV0, empty_values, value_idx, L, max_size)
+        lemma_set_frame2(T0V, V0V, T1V, T2V, V2V, array, value, E0, E1, EV0, empty_values, value_idx, L, max_size)
+        unfold(AMOK((tree, values, array_length, empty_node, empty_values, max_size), len(tree), tree.shape[1], len(values)))
